@@ -73,6 +73,7 @@ a regular expression, so the synchronization above could also be achieved with:
 
     dst_job.sync(src_job, doc_sync=sync.DocSync.ByKey('foo'))
 """
+import errno
 import logging
 import os
 import re
@@ -130,6 +131,10 @@ class _dircmp_deep(dircmp):
     # The type check for the following line must be ignored.
     # See: https://github.com/python/mypy/issues/708
     methodmap["same_files"] = methodmap["diff_files"] = phase3  # type: ignore
+
+
+def _raise(error):
+    raise error
 
 
 class _DocProxy:
@@ -322,6 +327,22 @@ class _FileModifyProxy:
     def copytree(self, src, dst, **kwargs):
         """Copy tree src to dst."""
         logger.more(f"Copy tree '{_safe_relpath(src)}' -> '{_safe_relpath(dst)}'.")
+        if self.dry_run:
+            # shutil.copytree creates the directories itself, so only go through
+            # the motions: same errors for an existing destination or a missing
+            # source, and every file is passed to the (dry) copy function.
+            if os.path.lexists(dst):
+                raise FileExistsError(errno.EEXIST, os.strerror(errno.EEXIST), dst)
+            ignore = kwargs.get("ignore")
+            for dirpath, dirnames, filenames in os.walk(src, onerror=_raise):
+                if ignore is not None:
+                    ignored = ignore(dirpath, dirnames + filenames)
+                    dirnames[:] = [d for d in dirnames if d not in ignored]
+                    filenames = [f for f in filenames if f not in ignored]
+                for filename in filenames:
+                    fn_src = os.path.join(dirpath, filename)
+                    self.copy(fn_src, os.path.join(dst, os.path.relpath(fn_src, src)))
+            return
         shutil.copytree(src, dst, copy_function=self.copy, **kwargs)
 
     @contextmanager
@@ -644,7 +665,18 @@ def sync_jobs(
     else:
         logger.debug(f"Synchronizing job '{src}'...")
 
-    if os.path.isdir(src.path):
+    dst_exists = os.path.isdir(dst.path)
+    if os.path.isdir(src.path) and proxy.dry_run and not dst_exists:
+        # A dry run must not initialize the destination: there is nothing to
+        # compare with, all (not excluded) source files would be copied.
+        proxy.copytree(
+            src.path,
+            dst.path,
+            ignore=lambda path, names: {
+                name for name in names if any(re.match(p, name) for p in exclude)
+            },
+        )
+    elif os.path.isdir(src.path):
         if not dry_run:
             dst.init()
         _sync_job_workspaces(
@@ -659,8 +691,10 @@ def sync_jobs(
         )
 
     if doc_sync not in (DocSync.NO_SYNC, DocSync.COPY):
-        if src.document != dst.document:
-            with proxy.create_doc_backup(dst.document) as dst_proxy:
+        # Accessing the document initializes the job, which a dry run must not do.
+        dst_document = dst.document if dst_exists or not proxy.dry_run else {}
+        if src.document != dst_document:
+            with proxy.create_doc_backup(dst_document) as dst_proxy:
                 doc_sync(src.document, dst_proxy)
 
 
